@@ -40,7 +40,11 @@ inductive UOp where
 /-- May the operation leave by an exception?  (`std::bad_alloc` counts.)  From the C++ sources:
     getters, `searchcenters`, `ndsplineeval`, `ndsplineeval_deriv`, `get_aux_value` neither allocate nor throw;
     `ndsplineeval_gradient` throws `std::runtime_error` for tables of `PHOTOSPLINE_MAXDIM` or more dimensions;
-    `convolve` allocates (`new[]`, `allocate`) — e.g. `std::bad_array_new_length` for `n_knots = 0`. -/
+    `convolve` throws `std::runtime_error` for `dim ≥ ndim` (so for every call on an empty table) and for an empty
+    kernel, and it allocates (`new[]`, `allocate`) — e.g. `std::bad_array_new_length` for an absurd `n_knots`;
+    `fit` throws for a table that already holds data, `write_key` for an empty table and for reserved or over-long
+    keys, `read_fits`/`read_fits_mem` for an occupied table and for anything they cannot read (leaving the table
+    empty); `grideval` throws only when an allocation fails (an all-zero table yields a result with no rows). -/
 def canThrow : UOp → Bool
   | .deleteTable | .deleteUntyped | .deleteNdDerived | .getAuxValue | .getter
   | .searchcenters | .ndsplineeval | .ndsplineevalDeriv | .wrapperFree => false
